@@ -3,12 +3,12 @@
 #include <kernel/runtime.hpp>
 namespace c16
 {
-  void reg_bilin(std::vector<vf::Target>&); void reg_blocked(std::vector<vf::Target>&); void reg_func(std::vector<vf::Target>&); void reg_burgers(std::vector<vf::Target>&);
+  void reg_bilin(std::vector<vf::Target>&); void reg_blocked(std::vector<vf::Target>&); void reg_func(std::vector<vf::Target>&); void reg_burgers(std::vector<vf::Target>&); void reg_trace(std::vector<vf::Target>&);
 }
 int main(int argc, char** argv)
 {
   FEAT::Runtime::ScopeGuard guard(argc, argv);
   std::vector<vf::Target> tg;
-  c16::reg_bilin(tg); c16::reg_blocked(tg); c16::reg_func(tg); c16::reg_burgers(tg);
+  c16::reg_bilin(tg); c16::reg_blocked(tg); c16::reg_func(tg); c16::reg_burgers(tg); c16::reg_trace(tg);
   return vf::main_impl(argc, argv, tg);
 }
